@@ -57,15 +57,17 @@ impl DerivedTS {
             };
 
             quote! {
-                fn output_path() -> Option<std::path::PathBuf> {
-                    Some(std::path::PathBuf::from(#path_string))
+                fn output_path() -> std::option::Option<std::path::PathBuf> {
+                    std::option::Option::Some(std::path::PathBuf::from(#path_string))
                 }
             }
         };
 
         let docs = match &*self.docs {
             "" => None,
-            docs => Some(quote!(const DOCS: Option<&'static str> = Some(#docs);)),
+            docs => Some(quote!(
+                const DOCS: std::option::Option<&'static str> = std::option::Option::Some(#docs);
+            )),
         };
 
         let crate_rename = self.crate_rename.clone();
@@ -91,7 +93,7 @@ impl DerivedTS {
                 #assoc_type
                 type OptionInnerType = Self;
 
-                fn ident() -> String {
+                fn ident() -> std::string::String {
                     (#ident).to_string()
                 }
 
@@ -169,11 +171,11 @@ impl DerivedTS {
                 impl #crate_rename::TS for #generics {
                     type WithoutGenerics = #generics;
                     type OptionInnerType = Self;
-                    fn name() -> String { #ts_names.to_owned() }
-                    fn inline() -> String { #name }
-                    fn inline_flattened() -> String { #name }
-                    fn decl() -> String { panic!("{} cannot be declared", #name) }
-                    fn decl_concrete() -> String { panic!("{} cannot be declared", #name) }
+                    fn name() -> std::string::String { #ts_names.to_owned() }
+                    fn inline() -> std::string::String { #name }
+                    fn inline_flattened() -> std::string::String { #name }
+                    fn decl() -> std::string::String { panic!("{} cannot be declared", #name) }
+                    fn decl_concrete() -> std::string::String { panic!("{} cannot be declared", #name) }
                 }
             )*
         }
@@ -226,7 +228,7 @@ impl DerivedTS {
     fn generate_name_fn(&self, generics: &Generics) -> TokenStream {
         let name = self.name_with_generics(generics);
         quote! {
-            fn name() -> String {
+            fn name() -> std::string::String {
                 #name
             }
         }
@@ -239,21 +241,21 @@ impl DerivedTS {
         let inline_flattened = self.inline_flattened.as_ref().map_or_else(
             || {
                 quote! {
-                    fn inline_flattened() -> String {
+                    fn inline_flattened() -> std::string::String {
                         panic!("{} cannot be flattened", <Self as #crate_rename::TS>::name())
                     }
                 }
             },
             |inline_flattened| {
                 quote! {
-                    fn inline_flattened() -> String {
+                    fn inline_flattened() -> std::string::String {
                         #inline_flattened
                     }
                 }
             },
         );
         let inline = quote! {
-            fn inline() -> String {
+            fn inline() -> std::string::String {
                 #inline
             }
         };
@@ -295,10 +297,10 @@ impl DerivedTS {
             G::Const(ConstParam { ident, .. }) => Some(quote!(#ident)),
         });
         quote! {
-            fn decl_concrete() -> String {
+            fn decl_concrete() -> std::string::String {
                 format!("type {} = {};", #name, <Self as #crate_rename::TS>::inline())
             }
-            fn decl() -> String {
+            fn decl() -> std::string::String {
                 #generic_types
                 let inline = <#rust_ty<#(#generic_idents,)*> as #crate_rename::TS>::inline();
                 let generics = #ts_generics;
